@@ -2778,7 +2778,11 @@ CK_RV SoftHSM::C_EncryptUpdate(CK_SESSION_HANDLE hSession, CK_BYTE_PTR pData, CK
 		return SymEncryptUpdate(session, pData, ulDataLen,
 				  pEncryptedData, pulEncryptedDataLen);
 	else
+	{
+		// Multi-part is not available for asymmetric algorithms; the failing call ends the operation
+		session->resetOp();
 		return CKR_FUNCTION_NOT_SUPPORTED;
+	}
 }
 
 // SymAlgorithm version of C_EncryptFinal
@@ -2876,7 +2880,11 @@ CK_RV SoftHSM::C_EncryptFinal(CK_SESSION_HANDLE hSession, CK_BYTE_PTR pEncrypted
 	if (session->getSymmetricCryptoOp() != NULL)
 		return SymEncryptFinal(session, pEncryptedData, pulEncryptedDataLen);
 	else
+	{
+		// Multi-part is not available for asymmetric algorithms; the failing call ends the operation
+		session->resetOp();
 		return CKR_FUNCTION_NOT_SUPPORTED;
+	}
 }
 
 // SymAlgorithm version of C_DecryptInit
@@ -3530,7 +3538,11 @@ CK_RV SoftHSM::C_DecryptUpdate(CK_SESSION_HANDLE hSession, CK_BYTE_PTR pEncrypte
 		return SymDecryptUpdate(session, pEncryptedData, ulEncryptedDataLen,
 				  pData, pDataLen);
 	else
+	{
+		// Multi-part is not available for asymmetric algorithms; the failing call ends the operation
+		session->resetOp();
 		return CKR_FUNCTION_NOT_SUPPORTED;
+	}
 }
 
 static CK_RV SymDecryptFinal(Session* session, CK_BYTE_PTR pDecryptedData, CK_ULONG_PTR pulDecryptedDataLen)
@@ -3627,7 +3639,11 @@ CK_RV SoftHSM::C_DecryptFinal(CK_SESSION_HANDLE hSession, CK_BYTE_PTR pData, CK_
 	if (session->getSymmetricCryptoOp() != NULL)
 		return SymDecryptFinal(session, pData, pDataLen);
 	else
+	{
+		// Multi-part is not available for asymmetric algorithms; the failing call ends the operation
+		session->resetOp();
 		return CKR_FUNCTION_NOT_SUPPORTED;
+	}
 }
 
 // Initialise digesting using the specified mechanism in the specified session
